@@ -758,12 +758,75 @@ def rule_r7(chk, F):
         if "THREAD_LOCAL_DATA_STATE_OFFSET" not in txt:
             r.violation("%s::emit_safepoint:not-state-offset" % f,
                         "the optimizing compiler's poll does not read THREAD_LOCAL_DATA_STATE_OFFSET", es[0].where())
+    # boots: the graph builder plants a Safepoint instruction at function entry and on every loop back-edge,
+    # the generic code generator dispatches it, and both targets compare the state byte with 0 (= Running)
+    gb = D.get("pkgs/boots/bytecode_graph_builder.dora")
+    if r.anchor("pkgs/boots/bytecode_graph_builder.dora", gb):
+        fns = {f.name: f for f in doraq.functions(gb, "pkgs/boots/bytecode_graph_builder.dora") if f.body is not None}
+        jl = fns.get("emit_jump_loop")
+        if r.anchor("boots emit_jump_loop", jl):
+            cs = [c for c in doraq.calls(jl.body)]
+            sp = [c.line for c in cs if c.callee == "self.emit_safepoint"]
+            go = [c.line for c in cs if c.callee == "graph::create_goto_inst"]
+            r.instance("boots:emit_jump_loop:safepoint-before-backedge")
+            if not sp or not go or sp[0] > go[0]:
+                r.violation("pkgs/boots/bytecode_graph_builder.dora::emit_jump_loop:no-safepoint",
+                            "a loop back-edge is built without a preceding Safepoint instruction: code compiled by the "
+                            "optimizing compiler can spin in a loop that never polls, and a stop-the-world waits "
+                            "forever", jl.where())
+        es = fns.get("emit_safepoint")
+        if r.anchor("boots graph builder emit_safepoint", es):
+            txt = doraq.text(es.body)
+            r.instance("boots:emit_safepoint:creates-and-appends")
+            if "graph::create_safepoint_inst" not in txt or "append_inst" not in txt:
+                r.violation("pkgs/boots/bytecode_graph_builder.dora::emit_safepoint:not-appended",
+                            "the Safepoint instruction is not created/appended", es.where())
+        entry = [f for f in fns.values() if any(c.callee == "self.emit_safepoint" and "entry" in (c.arg_text(0) or "")
+                                               for c in doraq.calls(f.body))]
+        r.instance("boots:function-entry-safepoint", sample={"in": [f.qual for f in entry]})
+        if not entry:
+            r.violation("pkgs/boots/bytecode_graph_builder.dora:no-entry-safepoint",
+                        "no Safepoint is planted in the entry block", "pkgs/boots/bytecode_graph_builder.dora")
     cgd = D.get("pkgs/boots/codegen.dora")
     if r.anchor("pkgs/boots/codegen.dora", cgd):
-        txt = doraq.text(cgd)
-        r.instance("boots generate_code emits safepoints")
-        if "emit_safepoint" not in txt and "Safepoint" not in txt:
-            r.violation("pkgs/boots/codegen.dora:no-safepoint", "generic code generator never emits a safepoint", "")
+        ok = False
+        for m in doraq.walk(cgd):
+            if m[0] == "MATCH_ARM":
+                ns = doraq.nodes(m)
+                if ns and doraq.text(ns[0]) == "Op::Safepoint" and "emit_safepoint" in doraq.text(ns[-1]):
+                    ok = True
+        r.instance("boots codegen dispatches Op::Safepoint")
+        if not ok:
+            r.violation("pkgs/boots/codegen.dora:Op::Safepoint:not-lowered",
+                        "the generic code generator does not lower Op::Safepoint to emit_safepoint",
+                        "pkgs/boots/codegen.dora")
+    ts = F.crate("dora_compiler").adt("abi::ThreadState")
+    running = {v["name"]: v["discr"] for v in ts["variants"]}.get("Running") if ts else None
+    for f, cmp_insn, br in (("pkgs/boots/codegen/x64.dora", "self.asm.cmpb_ai", "self.asm.jcc"),
+                            ("pkgs/boots/codegen/arm64.dora", "self.asm.ldrb_imm", "self.asm.cbnz")):
+        t = D.get(f)
+        if t is None:
+            continue
+        es = [x for x in doraq.functions(t, f) if x.name == "emit_safepoint" and x.body is not None]
+        if not es:
+            continue
+        cs = list(doraq.calls(es[0].body))
+        c1 = [c for c in cs if c.callee == cmp_insn]
+        c2 = [c for c in cs if c.callee == br]
+        r.instance("%s:emit_safepoint:byte-compare-with-Running" % f, sample={"compare": cmp_insn, "branch": br})
+        if not c1 or not c2 or c1[0].line > c2[0].line:
+            r.violation("%s::emit_safepoint:shape" % f,
+                        "the poll must load/compare the state *byte* (%s) and branch to the slow path (%s)" % (
+                            cmp_insn.split(".")[-1], br.split(".")[-1]), es[0].where())
+        elif f.endswith("x64.dora"):
+            args = " ".join(doraq.text(a) for a in c1[0].args)
+            if "Immediate(%s)" % running not in args.replace("i32", "").replace("i64", ""):
+                r.violation("%s::emit_safepoint:wrong-constant" % f,
+                            "the poll compares the state byte with `%s`, not with Running (%s)" % (args, running),
+                            es[0].where())
+            if "Condition::NotEqual" not in " ".join(doraq.text(a) for a in c2[0].args):
+                r.violation("%s::emit_safepoint:wrong-condition" % f, "slow path must be taken when state != Running",
+                            es[0].where())
 
 
 def run(chk, F):
@@ -777,6 +840,10 @@ def run(chk, F):
     rule_r5(chk, F, c, cg, ctx)
     rule_r6(chk, F, c, cg)
     rule_r7(chk, F)
+    # "no thread touches the managed heap during the operation": a parked thread must not hold or be handed a
+    # direct pointer into the managed heap (same engine as C03.R2)
+    from rules import c03
+    c03.rule_r2(chk, F, c, cg, rid="C04.R8")
     chk.assumptions += [
         "decides the shape of the protocol (ordering, pairing, transition table, blocking discipline); that these "
         "orderings suffice in every interleaving is a model-checking question and is not decided",
